@@ -3,12 +3,22 @@ package c19
 // C19 — unambiguous signed digests and store keys; untrusted bytes never crash a node.
 //
 // Group A (injectivity, in-process): generated pairs of semantically different objects are pushed through
-// the REAL digest / key functions (Transaction.GetSignBytes/GetHash, bft.Message.SignBytes,
-// QuorumCertificate.SignBytes, the evidence de-duplication key, every key constructor of fsm/key.go,
-// lib.JoinLenPrefix, and - behaviourally, through the real VersionedStore / Txn / Indexer - the unexported
-// indexer keys, prefixEnd ranges and the version suffix); the outputs of different inputs must differ and
-// reads through one prefix must return exactly the keys built from that prefix's components.
-// Group B (robust decoding, child processes): see decode_test.go.
+// the REAL digest / key functions (Transaction.GetSignBytes/GetHash for all registered message types,
+// bft.Message.SignBytes per class and phase, QuorumCertificate.SignBytes, the evidence de-duplication key and its
+// equivocation test, every key constructor of fsm/key.go, lib.JoinLenPrefix, and - behaviourally, through the real
+// VersionedStore / Txn / Store / Indexer - the unexported indexer keys, the prefixEnd ranges, the version suffix and
+// the state-change journal). Outputs of different inputs must differ and a read through a prefix must return exactly
+// the records built from that prefix's components. Pairs differ in exactly one field, by a byte string split
+// differently over two fields, or by two exchanged values; which fields the signer deliberately leaves out is
+// stated in run.Assume (read from the code).
+// Group B (robust decoding, child processes): see decode_test.go - mutated / random / re-signed hostile inputs for
+// every network-facing decoder and the handlers behind it, unknown-field injection at every nesting depth of the
+// types lib.Unmarshal treats as critical, and the stated size caps (at the cap: accepted, above: rejected).
+//
+// Environment knobs (none affects a verdict): C19_SIGLOG=<file> appends every violation signature (triage),
+// C19_DEBUG=1 adds timing counters and a heap profile per child, C19_SELFTEST=crash:<case>|hang:<case> simulates a
+// fatal crash / a hang in a child to exercise the parent's attribution, C19_HANG_SEC / C19_HANG_CONFIRM_SEC set the
+// watchdogs (30 s per input inside a shard, 180 s when the input is re-run alone).
 
 import (
 	"bytes"
@@ -19,6 +29,7 @@ import (
 	"sort"
 	"strings"
 	"sync"
+	"sync/atomic"
 	"testing"
 	"time"
 
@@ -224,7 +235,9 @@ func digestKinds(e *env) []*kindCfg {
 				}
 				return mustE(lib.Marshal(ev))
 			}}},
-			class:    func(m proto.Message) string { return m.(*bft.DoubleSignEvidence).GetVoteA().GetHeader().GetPhase().String() },
+			class: func(m proto.Message) string {
+				return m.(*bft.DoubleSignEvidence).GetVoteA().GetHeader().GetPhase().String()
+			},
 			excluded: evidenceExcluded,
 			gen: func(rng *rand.Rand, i int) proto.Message {
 				ph := []lib.Phase{lib.Phase_PROPOSE_VOTE, lib.Phase_PRECOMMIT_VOTE}[i%2]
@@ -234,10 +247,6 @@ func digestKinds(e *env) []*kindCfg {
 			},
 		},
 	}
-}
-
-type pairStats struct {
-	obs map[string]int64 // unsigned-by-design fields whose change was observed to leave the digest unchanged
 }
 
 // comparePair applies the oracle to one generated pair.
@@ -266,7 +275,7 @@ func (c *kindCfg) comparePair(run *core.Run, name, op string, a, b proto.Message
 		run.Count("inj_digest_pairs_compared", 1)
 		run.Count("inj_pairs_"+c.kind, 1)
 		run.Distinct(fmt.Sprintf("inj/%s/%s/%s/%s/%s", c.kind, class, d.name, field, op))
-		if strings.HasSuffix(name, "/0") && op != "one-field" && len(obs) < 3 {
+		if strings.HasSuffix(name, "/0") && op != "one-field" && digestSamples.Add(1) <= 2 {
 			run.Sample(map[string]any{"monitor": "digest-injectivity", "case": name, "kind": c.kind, "class": class, "fn": d.name, "op": op, "changed": changed,
 				"digest_a": core.Hex(da), "digest_b": core.Hex(db)})
 		}
@@ -542,6 +551,8 @@ func sortedInts(m map[int]bool) []int {
 	sort.Ints(out)
 	return out
 }
+
+var digestSamples atomic.Int32
 
 var sigLogMu sync.Mutex
 
